@@ -1,1 +1,728 @@
-From QCE Require Import C10.Model C10.Run.
+(* C10 — soundness of the symbolic (max-plus) scheduler of C10/Model.v w.r.t. Core/Model.v, and of the certificate. *)
+From Coq Require Import ZArith List Bool Lia ZifyBool Arith.
+Import ListNotations.
+From QCE Require Import Base.Prelude Core.Model Core.Run Core.TimesProofs Core.TimesListing Lib.Run C10.Model C10.Run.
+From Gen Require Import Ident Classes.
+Open Scope Z_scope.
+
+(* ------------------------------------------------------------------ admissible settings *)
+(* what the order on linear forms uses: non-negative globals and 2W + M >= R (W >= 0 holds by definition of max) *)
+Definition env_ok (env : denv) : Prop :=
+  0 <= genv env GReadout /\ 0 <= genv env GMicrowave /\ 0 <= genv env GFlux /\ 0 <= genv env GReset
+  /\ genv env GReadout <= 2 * wait_of env + genv env GMicrowave.
+
+(* the hypotheses in terms of the setting only: durations are multiples of 0.25 = 2 ticks, so R - M is even and the wait
+   0.5 * (R - M) is exact *)
+Definition env_nonneg (env : denv) : Prop :=
+  0 <= genv env GReadout /\ 0 <= genv env GMicrowave /\ 0 <= genv env GFlux /\ 0 <= genv env GReset.
+Definition env_parity (env : denv) : Prop := (genv env GReadout - genv env GMicrowave) mod 2 = 0.
+
+Lemma wait_nonneg env : 0 <= wait_of env.
+Proof. unfold wait_of; simpl. lia. Qed.
+
+Lemma env_ok_of env : env_nonneg env -> env_parity env -> env_ok env.
+Proof.
+  intros (A & B & C & D) P. unfold env_ok, env_parity, wait_of, resolve in *.
+  repeat split; try assumption.
+  pose proof (Z.div_mod (genv env GReadout - genv env GMicrowave) 2 ltac:(lia)) as E. rewrite P in E. lia.
+Qed.
+
+(* without the parity hypothesis the fact 2W + M >= R is false in the model (floor division) *)
+Example parity_needed : ~ env_ok (mk_env 3 0 0 0 []).
+Proof. unfold env_ok, wait_of; simpl. intros (_ & _ & _ & _ & H). vm_compute in H. apply H; reflexivity. Qed.
+
+(* ------------------------------------------------------------------ linear forms *)
+Lemma leval_add env a b : leval env (ladd a b) = leval env a + leval env b.
+Proof. unfold leval, ladd; simpl. ring. Qed.
+Lemma leval_sub env a b : leval env (lsub a b) = leval env a - leval env b.
+Proof. unfold leval, lsub; simpl. ring. Qed.
+Lemma leval_zero env : leval env lzero = 0.
+Proof. unfold leval, lzero, lconst; cbn [cR cM cF cS cW c0]. ring. Qed.
+Lemma leval_const env z : leval env (lconst z) = z.
+Proof. unfold leval, lconst; cbn [cR cM cF cS cW c0]. ring. Qed.
+
+Lemma sdur_sound env d x : sdur d = Some x -> leval env x = resolve env d.
+Proof.
+  destruct d as [z|k| |]; cbn [sdur]; intros E; inversion E; subst; clear E.
+  - apply leval_const.
+  - destruct k; unfold leval, lvar, resolve; cbn [cR cM cF cS cW c0]; ring.
+  - unfold leval, lwait; cbn [cR cM cF cS cW c0]. unfold wait_of. ring.
+Qed.
+
+Lemma lin_nonneg_sound env l : env_ok env -> lin_nonneg l = true -> 0 <= leval env l.
+Proof.
+  intros (HR & HM & HF & HS & HW) H. pose proof (wait_nonneg env) as HW0.
+  unfold lin_nonneg in H. destruct l as [a b c d e f]; cbn [cR cM cF cS cW c0] in H.
+  set (k := Z.max 0 (- a)) in *.
+  repeat rewrite andb_true_iff in H. destruct H as ((((H1 & H2) & H3) & H4) & H5).
+  apply Z.leb_le in H1, H2, H3, H4, H5.
+  unfold leval; cbn [cR cM cF cS cW c0].
+  set (R := genv env GReadout) in *. set (M := genv env GMicrowave) in *.
+  set (F := genv env GFlux) in *. set (S := genv env GReset) in *. set (W := wait_of env) in *.
+  assert (K : 0 <= k) by (unfold k; lia).
+  assert (A : 0 <= a + k) by (unfold k; lia).
+  clearbody k R M F S W.
+  pose proof (Z.mul_nonneg_nonneg _ _ A HR) as P1.
+  pose proof (Z.mul_nonneg_nonneg _ _ H1 HM) as P2.
+  pose proof (Z.mul_nonneg_nonneg _ _ H2 HF) as P3.
+  pose proof (Z.mul_nonneg_nonneg _ _ H3 HS) as P4.
+  pose proof (Z.mul_nonneg_nonneg _ _ H4 HW0) as P5.
+  assert (G : 0 <= 2 * W + M - R) by lia.
+  pose proof (Z.mul_nonneg_nonneg _ _ K G) as P6.
+  lia.
+Qed.
+
+Lemma lin_le_sound env a b : env_ok env -> lin_le a b = true -> leval env a <= leval env b.
+Proof. intros E H. apply (lin_nonneg_sound env _ E) in H. rewrite leval_sub in H. lia. Qed.
+
+(* ------------------------------------------------------------------ max-plus forms: "v is the maximum of the members" *)
+Definition UB (env : denv) (m : mp) (v : Z) : Prop := forall x, In x m -> leval env x <= v.
+Definition Wit (env : denv) (m : mp) (v : Z) : Prop := exists x, In x m /\ leval env x = v.
+Definition Mx (env : denv) (m : mp) (v : Z) : Prop := Wit env m v /\ UB env m v.
+
+Lemma Mx_unique env m v w : Mx env m v -> Mx env m w -> v = w.
+Proof. intros [[x [Hx Ex]] U1] [[y [Hy Ey]] U2]. specialize (U1 y Hy). specialize (U2 x Hx). lia. Qed.
+
+Lemma Mx_single env x : Mx env [x] (leval env x).
+Proof. split; [exists x; simpl; auto | intros y [<-|[]]; lia]. Qed.
+Lemma Mx_single_inv env x v : Mx env [x] v -> v = leval env x.
+Proof. intros H. exact (Mx_unique _ _ _ _ H (Mx_single env x)). Qed.
+Lemma Mx_mp0 env : Mx env mp0 0.
+Proof. unfold mp0. pose proof (Mx_single env lzero) as H. rewrite leval_zero in H. exact H. Qed.
+
+Lemma fold_max_ge l : forall a, a <= fold_left Z.max l a.
+Proof. induction l as [|x t IH]; intros a; simpl; [lia | specialize (IH (Z.max a x)); lia]. Qed.
+Lemma fold_max_ub l : forall a x, In x l -> x <= fold_left Z.max l a.
+Proof.
+  induction l as [|y t IH]; intros a x []; simpl.
+  - subst. pose proof (fold_max_ge t (Z.max a x)). lia.
+  - apply IH; assumption.
+Qed.
+Lemma fold_max_in l : forall a, fold_left Z.max l a = a \/ In (fold_left Z.max l a) l.
+Proof.
+  induction l as [|y t IH]; intros a; simpl; [left; reflexivity|].
+  destruct (IH (Z.max a y)) as [E|E]; [|right; right; exact E].
+  rewrite E. destruct (Z.max_spec a y) as [[_ ->]|[_ ->]]; [right; left; reflexivity | left; reflexivity].
+Qed.
+
+Lemma eval_mp_Mx env m : m <> [] -> Mx env m (eval_mp env m).
+Proof.
+  destruct m as [|x t]; [congruence|]. intros _. unfold eval_mp. split.
+  - destruct (fold_max_in (map (leval env) t) (leval env x)) as [E|E].
+    + exists x. split; [left; reflexivity | symmetry; exact E].
+    + apply in_map_iff in E as [y [Ey Hy]]. exists y. split; [right; exact Hy | exact Ey].
+  - intros y [<-|Hy]; [apply fold_max_ge | apply fold_max_ub, in_map; exact Hy].
+Qed.
+Lemma Mx_eval env m v : Mx env m v -> eval_mp env m = v.
+Proof.
+  intros H. apply (Mx_unique env m); [|exact H]. apply eval_mp_Mx.
+  destruct H as [[x [Hx _]] _]. intros ->. destruct Hx.
+Qed.
+
+Lemma mp_le_sound env a b va vb : env_ok env -> mp_le a b = true -> Mx env a va -> Mx env b vb -> va <= vb.
+Proof.
+  intros E H [[x [Hx Ex]] _] [_ Ub]. unfold mp_le in H. rewrite forallb_forall in H.
+  specialize (H x Hx). apply existsb_exists in H as [y [Hy L]].
+  apply (lin_le_sound env _ _ E) in L. specialize (Ub y Hy). lia.
+Qed.
+
+Lemma mp_is0_sound env a v : env_ok env -> mp_is0 a = true -> Mx env a v -> v = 0.
+Proof.
+  intros E H M. unfold mp_is0 in H. apply andb_true_iff in H as [H1 H2].
+  pose proof (mp_le_sound env _ _ _ _ E H1 M (Mx_mp0 env)).
+  pose proof (mp_le_sound env _ _ _ _ E H2 (Mx_mp0 env) M). lia.
+Qed.
+
+(* normalisation *)
+Lemma mp_insert_in x acc y : In y (mp_insert x acc) -> y = x \/ In y acc.
+Proof.
+  unfold mp_insert. destruct (existsb _ acc); [auto|]. intros [<-|H]; [auto|].
+  apply filter_In in H as [H _]. auto.
+Qed.
+Lemma mp_norm_in l y : In y (mp_norm l) -> In y l.
+Proof.
+  induction l as [|x t IH]; simpl; [auto|]. intros H. apply mp_insert_in in H as [->|H]; auto.
+Qed.
+Lemma mp_insert_wit env x acc v : env_ok env -> UB env (x :: acc) v -> Wit env (x :: acc) v -> Wit env (mp_insert x acc) v.
+Proof.
+  intros E U [w [Hw Ew]]. unfold mp_insert. destruct (existsb (fun y => lin_le x y) acc) eqn:D.
+  - apply existsb_exists in D as [y [Hy L]]. apply (lin_le_sound env _ _ E) in L.
+    destruct Hw as [<-|Hw]; [|exists w; auto].
+    exists y. split; [exact Hy|]. pose proof (U y (or_intror Hy)). lia.
+  - destruct Hw as [<-|Hw]; [exists x; simpl; auto|].
+    destruct (lin_le w x) eqn:L.
+    + apply (lin_le_sound env _ _ E) in L. exists x. split; [left; reflexivity|].
+      pose proof (U x (or_introl eq_refl)). lia.
+    + exists w. split; [|exact Ew]. right. apply filter_In. split; [exact Hw | rewrite L; reflexivity].
+Qed.
+Lemma Mx_norm env l v : env_ok env -> Mx env l v -> Mx env (mp_norm l) v.
+Proof.
+  intros E [W U]. split; [|intros y Hy; apply U, mp_norm_in, Hy].
+  revert W U. induction l as [|x t IH]; intros [w [Hw Ew]] U; [destruct Hw|]. simpl.
+  assert (U' : UB env (x :: mp_norm t) v).
+  { intros y [<-|Hy]; [apply U; left; reflexivity | apply U; right; apply mp_norm_in, Hy]. }
+  apply (mp_insert_wit env _ _ _ E U').
+  destruct Hw as [<-|Hw]; [exists x; simpl; auto|].
+  destruct (IH (ex_intro _ w (conj Hw Ew)) (fun y Hy => U y (or_intror Hy))) as [z [Hz Ez]].
+  exists z. split; [right; exact Hz | exact Ez].
+Qed.
+
+Lemma Mx_app env a b va vb : Mx env a va -> Mx env b vb -> Mx env (a ++ b) (Z.max va vb).
+Proof.
+  intros [[x [Hx Ex]] Ua] [[y [Hy Ey]] Ub]. split.
+  - destruct (Z.max_spec va vb) as [[_ ->]|[_ ->]]; [exists y | exists x]; split; auto; apply in_or_app; auto.
+  - intros z Hz. apply in_app_or in Hz as [Hz|Hz]; [specialize (Ua z Hz) | specialize (Ub z Hz)]; lia.
+Qed.
+Lemma Mx_max env a b va vb : env_ok env -> Mx env a va -> Mx env b vb -> Mx env (mp_max a b) (Z.max va vb).
+Proof. intros E A B. apply Mx_norm; [exact E | apply Mx_app; assumption]. Qed.
+
+Lemma Mx_add env a b va vb : env_ok env -> Mx env a va -> Mx env b vb -> Mx env (mp_add a b) (va + vb).
+Proof.
+  intros E [[x [Hx Ex]] Ua] [[y [Hy Ey]] Ub]. apply Mx_norm; [exact E|]. split.
+  - exists (ladd x y). split; [|rewrite leval_add; lia].
+    apply in_flat_map. exists x. split; [exact Hx | apply in_map; exact Hy].
+  - intros z Hz. apply in_flat_map in Hz as [x' [Hx' Hz]]. apply in_map_iff in Hz as [y' [<- Hy']].
+    rewrite leval_add. specialize (Ua x' Hx'). specialize (Ub y' Hy'). lia.
+Qed.
+
+Lemma Mx_sub1 env a va d : Mx env a va -> Mx env (mp_sub1 a d) (va - leval env d).
+Proof.
+  intros [[x [Hx Ex]] Ua]. split.
+  - exists (lsub x d). split; [exact (in_map (fun y => lsub y d) a x Hx) | rewrite leval_sub; lia].
+  - intros z Hz. apply in_map_iff in Hz as [x' [<- Hx']]. rewrite leval_sub. specialize (Ua x' Hx'). lia.
+Qed.
+
+Lemma Mx_concat env : forall ms vs m0 v0, Mx env m0 v0 -> Forall2 (Mx env) ms vs ->
+  Mx env (concat (m0 :: ms)) (fold_left Z.max vs v0).
+Proof.
+  induction ms as [|m1 ms IH]; intros vs m0 v0 H0 F; inversion F; subst; simpl.
+  - rewrite app_nil_r. exact H0.
+  - match goal with H : Mx env m1 ?y |- _ => pose proof (Mx_app env _ _ _ _ H0 H) as H1 end.
+    match goal with H : Forall2 _ ms _ |- _ => specialize (IH _ _ _ H1 H) end.
+    simpl in IH. rewrite <- app_assoc in IH. exact IH.
+Qed.
+
+(* ------------------------------------------------------------------ generic list facts *)
+Lemma Forall2_nth_rel {A B} (R : A -> B -> Prop) l l' da db : Forall2 R l l' -> R da db -> forall i, R (nth i l da) (nth i l' db).
+Proof. intros H D. induction H; intros [|i]; simpl; auto. Qed.
+
+Lemma all_some_Forall2 {A} (l : list (option A)) : forall r, all_some l = Some r -> Forall2 (fun o x => o = Some x) l r.
+Proof.
+  induction l as [|[a|] t IH]; simpl; intros r H; try discriminate.
+  - inversion H; constructor.
+  - destruct (all_some t) eqn:Et; [|discriminate]. inversion H; subst. constructor; auto.
+Qed.
+
+Lemma Forall2_concat {A B} (R : A -> B -> Prop) ls ls' : Forall2 (Forall2 R) ls ls' -> Forall2 R (concat ls) (concat ls').
+Proof. induction 1; simpl; [constructor | apply Forall2_app; assumption]. Qed.
+
+Lemma zmin_zeros l : (forall x, In x l -> x = 0) -> zmin_list 0 l = 0.
+Proof.
+  destruct l as [|x t]; simpl; [reflexivity|]. intros H.
+  assert (G : forall t a, a = 0 -> (forall y, In y t -> y = 0) -> fold_left Z.min t a = 0).
+  { clear. induction t as [|y t IH]; intros a Ha Ht; simpl; [exact Ha|].
+    apply IH; [rewrite Ha, (Ht y (or_introl eq_refl)); reflexivity | intros z Hz; apply Ht; right; exact Hz]. }
+  apply G; [apply H; left; reflexivity | intros y Hy; apply H; right; exact Hy].
+Qed.
+
+Lemma multi_ref_from_max tm ps : forall best,
+  snd (nth (multi_ref_from tm ps best) tm (0, 0))
+  = fold_left Z.max (map (fun p => snd (nth p tm (0, 0))) ps) (snd (nth best tm (0, 0))).
+Proof.
+  induction ps as [|p t IH]; intros best; simpl; [reflexivity|].
+  destruct (snd (nth p tm (0, 0)) >? snd (nth best tm (0, 0))) eqn:G; rewrite IH; f_equal; lia.
+Qed.
+
+(* ------------------------------------------------------------------ soundness of the symbolic scheduler, one setting *)
+Section Sound.
+  Variable env : denv.
+  Hypothesis E : env_ok env.
+
+  Definition Rel2 (sm : mp * mp) (cm : Z * Z) : Prop := Mx env (fst sm) (fst cm) /\ Mx env (snd sm) (snd cm).
+  Definition TM (stm : stimes_t) (tm : list (Z * Z)) : Prop := Forall2 Rel2 stm tm.
+  Lemma Rel2_dflt : Rel2 sdflt (0, 0).
+  Proof. split; apply Mx_mp0. Qed.
+  Lemma TM_nth stm tm p : TM stm tm -> Rel2 (nth p stm sdflt) (nth p tm (0, 0)).
+  Proof. intros H. apply Forall2_nth_rel; [exact H | exact Rel2_dflt]. Qed.
+
+  (* a symbolic context describes a concrete one: same relation type, and the instant that type consults *)
+  Definition CTX (sc : sctx) (c : ctx) : Prop :=
+    match sc, c with
+    | None, None => True
+    | Some (t, a), Some (t', rs, re) => t = t' /\ Mx env a (match t with RelationType_JOINED_START => rs | _ => re end)
+    | _, _ => False
+    end.
+
+  Lemma sstart_from_sound t a d s rs re dv :
+    sstart_from t a d = Some s -> Mx env a (match t with RelationType_JOINED_START => rs | _ => re end) -> Mx env d dv ->
+    Mx env s (start_from t rs re dv).
+  Proof.
+    destruct t; simpl; intros H A D.
+    - inversion H; subst; exact A.
+    - inversion H; subst; exact A.
+    - destruct d as [|x [|? ?]]; try discriminate. inversion H; subst.
+      apply Mx_single_inv in D. subst dv. apply Mx_sub1. exact A.
+  Qed.
+
+  Lemma anchor_sound t sm rs re : Rel2 sm (rs, re) ->
+    Mx env (anchor t sm) (match t with RelationType_JOINED_START => rs | _ => re end).
+  Proof. intros [A B]. destruct t; simpl in *; assumption. Qed.
+
+  Lemma sctx_start_sound sc c d s dv : CTX sc c -> sctx_start sc d = Some s -> Mx env d dv -> Mx env s (ctx_start c dv).
+  Proof.
+    destruct sc as [[t a]|], c as [[[t' rs] re]|]; simpl; try contradiction.
+    - intros [<- A] H D. eapply sstart_from_sound; eauto.
+    - intros _ H D. inversion H; subst. apply Mx_mp0.
+  Qed.
+
+  Lemma smulti_end_sound stm tm p ps : TM stm tm ->
+    Mx env (smulti_end stm (p :: ps)) (snd (nth (multi_ref_from tm ps p) tm (0, 0))).
+  Proof.
+    intros T. rewrite multi_ref_from_max. unfold smulti_end, mp_maxs. apply Mx_norm; [exact E|].
+    rewrite map_cons. apply Mx_concat.
+    - apply (TM_nth _ _ p T).
+    - induction ps as [|q ps IH]; simpl; constructor; [apply (TM_nth _ _ q T) | exact IH].
+  Qed.
+
+  Lemma slink_start_sound sc c stm tm l d s dv : CTX sc c -> TM stm tm -> slink_start sc stm l d = Some s -> Mx env d dv ->
+    Mx env s (link_start c tm l dv).
+  Proof.
+    intros C T H D. destruct l as [|t p|ps|t]; simpl in H |- *.
+    - eapply sctx_start_sound; eauto.
+    - pose proof (TM_nth _ _ p T) as R. destruct (nth p tm (0, 0)) as [rs re] eqn:En.
+      eapply sstart_from_sound; [exact H | apply anchor_sound; exact R | exact D].
+    - destruct ps as [|p ps].
+      + eapply sctx_start_sound; eauto.
+      + inversion H; subst. apply smulti_end_sound; assumption.
+    - eapply sctx_start_sound; eauto.
+  Qed.
+
+  Definition HS (sh : link * mp) (h : link * Z) : Prop := fst sh = fst h /\ Mx env (snd sh) (snd h).
+
+  Lemma stimes_acc_sound sc c : CTX sc c -> forall shs hs, Forall2 HS shs hs -> forall sacc acc r, TM sacc acc ->
+    stimes_acc sc shs sacc = Some r -> TM r (times_acc c hs acc).
+  Proof.
+    intros C shs hs F. induction F as [|[l sd] [l' d] shs hs [L D] F IH]; intros sacc acc r T H; simpl in *.
+    - inversion H; subst; exact T.
+    - subst l'. destruct (slink_start sc sacc l sd) as [s|] eqn:S; [|discriminate].
+      pose proof (slink_start_sound _ _ _ _ _ _ _ _ C T S D) as Ms.
+      eapply IH; [|exact H]. apply Forall2_app; [exact T|]. constructor; [|constructor].
+      split; simpl; [exact Ms | apply Mx_add; assumption].
+  Qed.
+
+  Lemma stimes_sound sc c shs hs r : CTX sc c -> Forall2 HS shs hs -> stimes sc shs = Some r -> TM r (times c hs).
+  Proof. intros C F H. apply (stimes_acc_sound sc c C shs hs F [] [] r); [constructor | exact H]. Qed.
+
+  (* ---------------------------------------------------------------- extents *)
+  Definition EXT1 (e : mp) (c : Z * Z) : Prop := fst c = 0 /\ Mx env e (snd c).
+
+  Lemma sextent_sound ps stm tm exts cexts hi : TM stm tm -> Forall2 EXT1 exts cexts ->
+    sextent ps stm exts = Some hi -> exists v, extent_of_nodes ps tm cexts = (0, v) /\ Mx env hi v.
+  Proof.
+    intros T X H. destruct ps as [|p0 ps'].
+    { simpl in *. inversion H; subst. exists 0. split; [reflexivity | apply Mx_mp0]. }
+    unfold sextent in H. set (ps := p0 :: ps') in *.
+    destruct (forallb (fun i => mp_is0 (fst (nth i stm sdflt))) (depth1 ps)
+              && forallb (fun i => mp_le mp0 (fst (nth i stm sdflt))) (bfs ps)) eqn:C; [|discriminate].
+    apply andb_true_iff in C as [C1 C2]. rewrite forallb_forall in C1, C2. inversion H; subst hi; clear H.
+    assert (Z0 : zmin_list 0 (map (fun i => fst (nth i tm (0, 0))) (depth1 ps)) = 0).
+    { apply zmin_zeros. intros x Hx. apply in_map_iff in Hx as [i [<- Hi]].
+      apply (mp_is0_sound env _ _ E (C1 i Hi)). apply (TM_nth _ _ i T). }
+    assert (NN : forall i, In i (bfs ps) -> 0 <= fst (nth i tm (0, 0))).
+    { intros i Hi. apply (mp_le_sound env _ _ _ _ E (C2 i Hi) (Mx_mp0 env)). apply (TM_nth _ _ i T). }
+    unfold extent_of_nodes. fold ps. cbv zeta. rewrite Z0.
+    clear C1 C2 Z0. revert NN. generalize (bfs ps) as l. intros l.
+    assert (G : forall sacc hacc, Mx env sacc hacc -> (forall i, In i l -> 0 <= fst (nth i tm (0, 0))) ->
+              exists v,
+                fold_left (fun (acc : Z * Z) (i : nat) =>
+                             let '(lo, hi) := nth i cexts (0, 0) in
+                             (Z.min (fst acc) (fst (nth i tm (0, 0)) - 0 + lo), Z.max (snd acc) (fst (nth i tm (0, 0)) - 0 + hi)))
+                          l (0, hacc) = (0, v)
+                /\ Mx env (fold_left (fun acc i => mp_max acc (mp_add (fst (nth i stm sdflt)) (nth i exts mp0))) l sacc) v).
+    { induction l as [|i l IH]; intros sacc hacc A NN; simpl.
+      - exists hacc. split; [reflexivity | exact A].
+      - pose proof (Forall2_nth_rel EXT1 exts cexts mp0 (0, 0) X (conj eq_refl (Mx_mp0 env)) i) as [L0 Mi].
+        destruct (nth i cexts (0, 0)) as [lo hi]. simpl in L0, Mi. subst lo.
+        pose proof (NN i (or_introl eq_refl)) as Si. pose proof (TM_nth _ _ i T) as [Ms _].
+        replace (Z.min 0 (fst (nth i tm (0, 0)) - 0 + 0)) with 0 by lia.
+        apply IH; [|intros j Hj; apply NN; right; exact Hj].
+        apply Mx_max; [exact E | exact A|]. rewrite Z.sub_0_r. apply Mx_add; assumption. }
+    intros NN. apply (G mp0 0 (Mx_mp0 env) NN).
+  Qed.
+
+  Lemma sext_of_unfold r ns : sext_of (OComp r ns) =
+    match all_some (map (fun n => sext_of (n_op n)) ns) with
+    | None => None
+    | Some exts => match stimes None (combine (map n_link ns) exts) with
+                   | None => None
+                   | Some tm => sextent (parents ns) tm exts
+                   end
+    end.
+  Proof.
+    simpl.
+    assert (G : forall l, (fix go (l : list node) : list (option mp) :=
+                 match l with [] => [] | Node _ _ o' :: t => sext_of o' :: go t end) l
+              = map (fun n => sext_of (n_op n)) l).
+    { induction l as [|[p lk o'] t IH]; simpl; [reflexivity|]. f_equal. exact IH. }
+    rewrite G. reflexivity.
+  Qed.
+
+  Definition EXT (o : op) : Prop := forall hi, sext_of o = Some hi -> exists v, ext_of env o = (0, v) /\ Mx env hi v.
+
+  Lemma ext_children ns : Forall (fun n => EXT (n_op n)) ns -> forall exts,
+    all_some (map (fun n => sext_of (n_op n)) ns) = Some exts ->
+    Forall2 EXT1 exts (map (fun n => ext_of env (n_op n)) ns).
+  Proof.
+    induction 1 as [|n ns Hn _ IH]; intros exts H; simpl in H.
+    - inversion H; constructor.
+    - destruct (sext_of (n_op n)) as [e|] eqn:En; [|discriminate].
+      destruct (all_some (map (fun n => sext_of (n_op n)) ns)) as [es|] eqn:Es; [|discriminate].
+      inversion H; subst. simpl. constructor; [|apply IH; reflexivity].
+      destruct (Hn e En) as [v [Ev Mv]]. rewrite Ev. split; [reflexivity | exact Mv].
+  Qed.
+
+  Lemma hs_children ns : forall exts, Forall2 EXT1 exts (map (fun n => ext_of env (n_op n)) ns) ->
+    Forall2 HS (combine (map n_link ns) exts) (combine (map n_link ns) (map (fun n => dur_of env (n_op n)) ns)).
+  Proof.
+    induction ns as [|n ns IH]; intros exts H; simpl in *; inversion H; subst; [constructor|].
+    simpl. constructor; [|apply IH; assumption].
+    match goal with H : EXT1 _ _ |- _ => destruct H as [L M] end.
+    split; [reflexivity|]. simpl. unfold dur_of. destruct (ext_of env (n_op n)) as [lo hi]. simpl in *. subst lo.
+    rewrite Z.sub_0_r. exact M.
+  Qed.
+
+  Theorem sext_of_sound o : EXT o.
+  Proof.
+    induction o as [l | r ns IH] using op_nodes_ind; intros hi H.
+    - simpl in H. destruct (sdur (l_dur l)) as [x|] eqn:D; [|discriminate]. inversion H; subst.
+      exists (resolve env (l_dur l)). split; [reflexivity|]. rewrite <- (sdur_sound env _ _ D). apply Mx_single.
+    - rewrite sext_of_unfold in H.
+      destruct (all_some (map (fun n => sext_of (n_op n)) ns)) as [exts|] eqn:A; [|discriminate].
+      destruct (stimes None (combine (map n_link ns) exts)) as [stm|] eqn:S; [|discriminate].
+      pose proof (ext_children ns IH exts A) as X.
+      pose proof (stimes_sound None None _ _ _ I (hs_children ns exts X) S) as T.
+      rewrite ext_of_unfold. unfold node_times. eapply sextent_sound; eauto.
+  Qed.
+
+  Corollary sdur_of_sound o d : sext_of o = Some d -> Mx env d (dur_of env o).
+  Proof.
+    intros H. destruct (sext_of_sound o d H) as [v [Ev Mv]]. unfold dur_of. rewrite Ev. rewrite Z.sub_0_r. exact Mv.
+  Qed.
+
+  Lemma snode_times_sound sc c ns stm : CTX sc c -> snode_times sc ns = Some stm -> TM stm (node_times env c ns).
+  Proof.
+    intros C H. unfold snode_times in H.
+    destruct (all_some (map (fun n => sext_of (n_op n)) ns)) as [ds|] eqn:A; [|discriminate].
+    unfold node_times. eapply stimes_sound; [exact C | | exact H].
+    apply hs_children. apply ext_children; [|exact A].
+    apply Forall_forall. intros n _. apply sext_of_sound.
+  Qed.
+
+  (* ---------------------------------------------------------------- listing *)
+  Definition ER (se : sentry) (e : entry) : Prop :=
+    e_leaf e = se_leaf se /\ Mx env (se_start se) (e_start e) /\ Mx env (se_end se) (e_end e).
+
+  Lemma ssub_ctx_sound sc c stm tm l : CTX sc c -> TM stm tm -> CTX (ssub_ctx sc stm l) (sub_ctx c tm l).
+  Proof.
+    intros C T. destruct l as [|t p|ps|t]; simpl; try exact C.
+    - pose proof (TM_nth _ _ p T) as R. destruct (nth p tm (0, 0)) as [rs re]. simpl.
+      split; [reflexivity | apply anchor_sound; exact R].
+    - destruct ps as [|p ps]; [exact C|]. simpl.
+      pose proof (smulti_end_sound stm tm p ps T) as M.
+      destruct (nth (multi_ref_from tm ps p) tm (0, 0)) as [rs re]. simpl in *. split; [reflexivity | exact M].
+  Qed.
+
+  Lemma slisting_op_unfold r ns sc sse :
+    slisting_op (OComp r ns) sc sse =
+    match snode_times sc ns with
+    | None => None
+    | Some tm =>
+        option_map (@concat sentry)
+          (all_some (map (fun i => nth i (map (fun n => slisting_op (n_op n)) ns) (fun _ _ => Some [])
+                                     (ssub_ctx sc tm (nth i (map n_link ns) LNone)) (nth i tm sdflt))
+                         (bfs (parents ns))))
+    end.
+  Proof.
+    simpl.
+    assert (G : forall l, (fix go (l : list node) : list (sctx -> mp * mp -> option (list sentry)) :=
+                 match l with [] => [] | Node _ _ o' :: t => slisting_op o' :: go t end) l
+              = map (fun n => slisting_op (n_op n)) l).
+    { induction l as [|[p lk o'] t IH]; simpl; [reflexivity|]. f_equal. exact IH. }
+    rewrite G. reflexivity.
+  Qed.
+
+  Theorem slisting_op_sound o : forall sc c sse cse sl, CTX sc c -> Rel2 sse cse ->
+    slisting_op o sc sse = Some sl -> Forall2 ER sl (listing_op env o c cse).
+  Proof.
+    induction o as [l | r ns IH] using op_nodes_ind; intros sc c sse cse sl C R H.
+    - simpl in *. inversion H; subst. destruct R as [R1 R2]. constructor; [|constructor]. unfold ER; simpl. split; [reflexivity | split; assumption].
+    - rewrite slisting_op_unfold in H. destruct (snode_times sc ns) as [stm|] eqn:S; [|discriminate].
+      pose proof (snode_times_sound _ _ _ _ C S) as T.
+      destruct (all_some _) as [parts|] eqn:A in H; [|discriminate]. simpl in H. inversion H; subst sl; clear H.
+      rewrite listing_op_unfold, flat_map_concat_map. apply Forall2_concat.
+      apply all_some_Forall2 in A. revert parts A. generalize (bfs (parents ns)) as l.
+      induction l as [|i l IHl]; intros parts A; simpl in *; inversion A; subst; constructor; [|apply IHl; assumption].
+      match goal with H : _ = Some ?y |- Forall2 ER ?y _ => rename H into Hi end.
+      destruct (nth_error ns i) as [n|] eqn:En.
+      + assert (Li : (i < length ns)%nat) by (apply nth_error_Some; congruence).
+        rewrite (nth_indep _ (fun _ _ => Some []) (slisting_op (n_op n))) in Hi by (rewrite map_length; exact Li).
+        rewrite (map_nth (fun n => slisting_op (n_op n)) ns n i) in Hi.
+        rewrite (nth_indep _ (fun _ _ => []) (listing_op env (n_op n))) by (rewrite map_length; exact Li).
+        rewrite (map_nth (fun n => listing_op env (n_op n)) ns n i).
+        rewrite (nth_error_nth _ _ n En) in Hi |- *.
+        rewrite Forall_forall in IH. apply nth_error_In in En.
+        eapply (IH n En); [| |exact Hi]; [apply ssub_ctx_sound; assumption | apply TM_nth; exact T].
+      + apply nth_error_None in En.
+        rewrite (nth_overflow (map _ ns)) in Hi by (rewrite map_length; exact En).
+        rewrite (nth_overflow (map _ ns)) by (rewrite map_length; exact En).
+        inversion Hi; constructor.
+  Qed.
+
+  Theorem slisting_sound ns sl : slisting ns = Some sl -> Forall2 ER sl (listing env ns).
+  Proof. intros H. exact (slisting_op_sound (OComp 1 ns) None None sdflt (0, 0) sl I Rel2_dflt H). Qed.
+
+  Theorem sduration_sound ns d : sduration ns = Some d -> Mx env d (comp_duration env ns).
+  Proof. intros H. apply sdur_of_sound. exact H. Qed.
+End Sound.
+
+(* ------------------------------------------------------------------ the symbolic listing evaluates to the model's listing *)
+Theorem symbolic_listing_sound ns sl env : env_ok env -> slisting ns = Some sl -> listing env ns = map (seval env) sl.
+Proof.
+  intros E H. pose proof (slisting_sound env E ns sl H) as F. clear H.
+  revert F. generalize (listing env ns) as es. intros es F.
+  induction F as [|se e sl es [L [S T]] F IH]; simpl; [reflexivity|]. rewrite IH. f_equal.
+  destruct e as [lf s t]. unfold seval. simpl in *. subst lf.
+  rewrite (Mx_eval env _ _ S), (Mx_eval env _ _ T). reflexivity.
+Qed.
+
+Theorem symbolic_duration_sound ns d env : env_ok env -> sduration ns = Some d -> comp_duration env ns = eval_mp env d.
+Proof. intros E H. symmetry. apply Mx_eval. apply sduration_sound; assumption. Qed.
+
+(* ------------------------------------------------------------------ the certificate *)
+Lemma forallb_impl {A} (f g : A -> bool) l : (forall x, In x l -> f x = true -> g x = true) -> forallb f l = true -> forallb g l = true.
+Proof. intros H F. rewrite forallb_forall in *. intros x Hx. apply H; auto. Qed.
+
+Lemma chan_overlap_entry env a b :
+  chan_overlap (entry_to_o env a) (entry_to_o env b) = leaf_chan_match (e_leaf a) (e_leaf b).
+Proof. reflexivity. Qed.
+
+Lemma pair_ok_sound env sa a sb b : env_ok env -> ER env sa a -> ER env sb b -> pair_ok sa sb = true ->
+  negb (chan_overlap (entry_to_o env a) (entry_to_o env b) && time_overlap (entry_to_o env a) (entry_to_o env b)) = true.
+Proof.
+  intros E [La [Sa Ta]] [Lb [Sb Tb]] H. rewrite chan_overlap_entry, La, Lb. unfold pair_ok in H.
+  destruct (leaf_chan_match (se_leaf sa) (se_leaf sb)); [|reflexivity]. simpl in H.
+  unfold time_overlap, entry_to_o; cbn [oe_s oe_e].
+  destruct (mp_le (se_end sa) (se_start sb)) eqn:H1.
+  { pose proof (mp_le_sound env _ _ _ _ E H1 Ta Sb). lia. }
+  destruct (mp_le (se_end sb) (se_start sa)) eqn:H2.
+  { pose proof (mp_le_sound env _ _ _ _ E H2 Tb Sa). lia. }
+  simpl in H. apply andb_true_iff in H as [H3 H4].
+  pose proof (mp_le_sound env _ _ _ _ E H3 Ta Sa). pose proof (mp_le_sound env _ _ _ _ E H4 Tb Sb). lia.
+Qed.
+
+Lemma cert_list_sound env sl es : env_ok env -> Forall2 (ER env) sl es -> cert_list sl = true ->
+  no_overlap_strict (map (entry_to_o env) es) = true.
+Proof.
+  intros E F. induction F as [|sa a sl es Ra F IH]; intros H; simpl in *; [reflexivity|].
+  apply andb_true_iff in H as [H1 H2]. rewrite (IH H2), andb_true_r.
+  clear IH H2. induction F as [|sb b sl es Rb F IH]; simpl in *; [reflexivity|].
+  apply andb_true_iff in H1 as [P H1]. rewrite (IH H1), andb_true_r.
+  apply (pair_ok_sound env _ _ _ _ E Ra Rb P).
+Qed.
+
+Lemma strict_no_overlap l : no_overlap_strict l = true -> no_overlap l = true.
+Proof.
+  induction l as [|a t IH]; simpl; [reflexivity|]. intros H. apply andb_true_iff in H as [H1 H2].
+  rewrite (IH H2), andb_true_r. revert H1. apply forallb_impl. intros b _ H.
+  destruct (chan_overlap a b && time_overlap a b) eqn:X; [discriminate|].
+  destruct (positive a), (positive b), (chan_overlap a b), (time_overlap a b); simpl in *; congruence.
+Qed.
+
+Lemma strict_barrier_clear l : no_overlap_strict l = true -> barrier_clear l = true.
+Proof.
+  induction l as [|a t IH]; simpl; [reflexivity|]. intros H. apply andb_true_iff in H as [H1 H2].
+  rewrite (IH H2), andb_true_r. revert H1. apply forallb_impl. intros b _ H.
+  destruct (is_barrier a || is_barrier b), (chan_overlap a b), (time_overlap a b); simpl in *; congruence.
+Qed.
+
+(* unbounded in the setting: one evaluation of the certificate covers every admissible setting *)
+Theorem certified_strict ns : cert_no_overlap ns = true -> forall env, env_ok env ->
+  no_overlap_strict (o_ops (model_obs env ns)) = true.
+Proof.
+  unfold cert_no_overlap. destruct (slisting ns) as [sl|] eqn:S; [|discriminate]. intros C env E.
+  change (o_ops (model_obs env ns)) with (map (entry_to_o env) (listing env ns)).
+  apply (cert_list_sound env sl); [exact E | apply slisting_sound; assumption | exact C].
+Qed.
+
+(* ------------------------------------------------------------------ unrolling does not look at the setting *)
+Lemma copy_op_env e1 e2 o : copy_op e1 o = copy_op e2 o.
+Proof.
+  induction o as [l | r ns IH] using op_nodes_ind; simpl; [reflexivity|]. f_equal.
+  change (rebuild e1 ns) with (rebuild e2 ns). f_equal.
+  induction IH as [|[p lk o'] t Hn _ IHt]; simpl; [reflexivity|]. simpl in Hn. rewrite Hn, IHt. reflexivity.
+Qed.
+Lemma copy_nodes_env e1 e2 ns : copy_nodes e1 ns = copy_nodes e2 ns.
+Proof. unfold copy_nodes. rewrite (copy_op_env e1 e2). reflexivity. Qed.
+Lemma repeat_nodes_env e1 e2 ns k : repeat_nodes e1 ns k = repeat_nodes e2 ns k.
+Proof. unfold repeat_nodes. rewrite !(copy_nodes_env e1 e2). reflexivity. Qed.
+Lemma apply_mods_fuel_env e1 e2 fuel : forall reps ns, apply_mods_fuel fuel e1 reps ns = apply_mods_fuel fuel e2 reps ns.
+Proof.
+  induction fuel as [|f IH]; intros reps ns; simpl; [reflexivity|].
+  rewrite (repeat_nodes_env e1 e2). apply map_ext. intros [p l [lf|r sub]]; [reflexivity|]. rewrite IH. reflexivity.
+Qed.
+Theorem apply_modifiers_env_indep e1 e2 reps ns : apply_modifiers e1 reps ns = apply_modifiers e2 reps ns.
+Proof. unfold apply_modifiers. apply apply_mods_fuel_env. Qed.
+
+(* ------------------------------------------------------------------ headline statements *)
+Theorem certified ns : cert_no_overlap ns = true -> forall env, env_nonneg env -> env_parity env ->
+  no_overlap (o_ops (model_obs env ns)) = true /\ barrier_clear (o_ops (model_obs env ns)) = true.
+Proof.
+  intros C env N P. pose proof (certified_strict ns C env (env_ok_of env N P)) as S.
+  split; [apply strict_no_overlap | apply strict_barrier_clear]; exact S.
+Qed.
+
+Theorem certified_unrolled ns env0 : cert_no_overlap (apply_modifiers env0 1 ns) = true ->
+  forall env, env_nonneg env -> env_parity env ->
+  no_overlap (o_ops (model_obs env (apply_modifiers env 1 ns))) = true
+  /\ barrier_clear (o_ops (model_obs env (apply_modifiers env 1 ns))) = true.
+Proof. intros C env N P. rewrite (apply_modifiers_env_indep env env0). apply certified; assumption. Qed.
+
+(* a case that passes the tie: its structure is overlap-free under EVERY admissible setting, as constructed and unrolled *)
+Theorem agree_all_settings c : agree c = true -> forall env, env_nonneg env -> env_parity env ->
+  let ns := lc_nodes (lib_of c) in
+  no_overlap (o_ops (model_obs env ns)) = true /\ barrier_clear (o_ops (model_obs env ns)) = true
+  /\ no_overlap (o_ops (model_obs env (apply_modifiers env 1 ns))) = true
+  /\ barrier_clear (o_ops (model_obs env (apply_modifiers env 1 ns))) = true.
+Proof.
+  intros A env N P ns. unfold agree in A. apply andb_true_iff in A as [A C2]. apply andb_true_iff in A as [_ C1].
+  destruct (certified ns C1 env N P) as [X1 X2].
+  destruct (certified_unrolled ns (lc_env (lib_of c)) C2 env N P) as [X3 X4]. auto.
+Qed.
+
+(* ------------------------------------------------------------------ the tie implies the judge (under the sampled setting) *)
+Definition sim (a b : oentry) : Prop :=
+  oe_cls a = oe_cls b /\ oe_chans a = oe_chans b /\ oe_s a = oe_s b /\ oe_e a = oe_e b.
+
+Lemma chid_exact_eqb_eq x y : chid_exact_eqb x y = true -> x = y.
+Proof.
+  destruct x as [i c], y as [j d]. unfold chid_exact_eqb; simpl. intros H. apply andb_true_iff in H as [H1 H2].
+  apply Z.eqb_eq in H1. subst j. destruct c, d; simpl in H2; try discriminate; reflexivity.
+Qed.
+Lemma chans_eqb_eq a b : chans_eqb a b = true -> a = b.
+Proof.
+  unfold chans_eqb. revert b. induction a as [|x t IH]; intros [|y u]; simpl; try discriminate; [reflexivity|].
+  intros H. apply andb_true_iff in H as [H1 H2]. apply chid_exact_eqb_eq in H1. apply IH in H2. congruence.
+Qed.
+Lemma oentry_eqb_sim a b : oentry_eqb a b = true -> sim a b.
+Proof.
+  unfold oentry_eqb, sim. intros H. repeat (apply andb_true_iff in H as [H ?]).
+  repeat split; try (apply Z.eqb_eq; assumption). apply chans_eqb_eq; assumption.
+Qed.
+Lemma list_eqb_sim l l' : list_eqb oentry_eqb l l' = true -> Forall2 sim l l'.
+Proof.
+  revert l'. induction l as [|a t IH]; intros [|b u]; simpl; try discriminate; [constructor|].
+  intros H. apply andb_true_iff in H as [H1 H2]. constructor; [apply oentry_eqb_sim; exact H1 | apply IH; exact H2].
+Qed.
+
+Lemma sim_pair a a' b b' : sim a a' -> sim b b' ->
+  chan_overlap a b = chan_overlap a' b' /\ time_overlap a b = time_overlap a' b'
+  /\ positive a = positive a' /\ positive b = positive b' /\ is_barrier a = is_barrier a' /\ is_barrier b = is_barrier b'.
+Proof.
+  intros (A1 & A2 & A3 & A4) (B1 & B2 & B3 & B4).
+  unfold chan_overlap, time_overlap, positive, is_barrier. rewrite A1, A2, A3, A4, B1, B2, B3, B4. repeat split.
+Qed.
+
+Lemma sim_no_overlap l l' : Forall2 sim l l' -> no_overlap l = true -> no_overlap l' = true.
+Proof.
+  intros F. induction F as [|a a' t t' Sa F IH]; simpl; [auto|]. intros H. apply andb_true_iff in H as [H1 H2].
+  rewrite (IH H2), andb_true_r. clear IH H2. induction F as [|b b' t t' Sb F IH]; simpl in *; [reflexivity|].
+  apply andb_true_iff in H1 as [P H1]. rewrite (IH H1), andb_true_r.
+  destruct (sim_pair _ _ _ _ Sa Sb) as (E1 & E2 & E3 & E4 & _). rewrite <- E1, <- E2, <- E3, <- E4. exact P.
+Qed.
+Lemma sim_barrier_clear l l' : Forall2 sim l l' -> barrier_clear l = true -> barrier_clear l' = true.
+Proof.
+  intros F. induction F as [|a a' t t' Sa F IH]; simpl; [auto|]. intros H. apply andb_true_iff in H as [H1 H2].
+  rewrite (IH H2), andb_true_r. clear IH H2. induction F as [|b b' t t' Sb F IH]; simpl in *; [reflexivity|].
+  apply andb_true_iff in H1 as [P H1]. rewrite (IH H1), andb_true_r.
+  destruct (sim_pair _ _ _ _ Sa Sb) as (E1 & E2 & _ & _ & E5 & E6). rewrite <- E1, <- E2, <- E5, <- E6. exact P.
+Qed.
+
+Lemma lobs_agree_transfer m o : lobs_agree m o = true ->
+  no_overlap (o_ops m) = true -> barrier_clear (o_ops m) = true ->
+  match o with Some x => no_overlap (lo_ops x) = true /\ barrier_clear (lo_ops x) = true | None => True end.
+Proof.
+  destruct o as [x|]; [|auto]. simpl. intros H N B. apply andb_true_iff in H as [H _]. apply list_eqb_sim in H.
+  split; [exact (sim_no_overlap _ _ H N) | exact (sim_barrier_clear _ _ H B)].
+Qed.
+
+Theorem agree_implies_spec c : agree c = true -> env_nonneg (lc_env (lib_of c)) -> env_parity (lc_env (lib_of c)) ->
+  spec_ok c = true.
+Proof.
+  intros A N P. destruct (agree_all_settings c A _ N P) as (X1 & X2 & X3 & X4).
+  unfold agree in A. apply andb_true_iff in A as [A _]. apply andb_true_iff in A as [A _].
+  unfold agree_lib in A. apply andb_true_iff in A as [A _]. apply andb_true_iff in A as [A1 A2].
+  pose proof (lobs_agree_transfer _ _ A1 X1 X2) as T1. pose proof (lobs_agree_transfer _ _ A2 X3 X4) as T2.
+  unfold spec_ok, lib_no_overlap_ok, lib_barrier_clear.
+  destruct (lc_plain (lib_of c)) as [p|], (lc_unrolled (lib_of c)) as [u|]; simpl in *;
+    repeat match goal with H : _ /\ _ |- _ => destruct H end;
+    repeat match goal with H : _ = true |- _ => rewrite H end; reflexivity.
+Qed.
+
+(* ------------------------------------------------------------------ statements in terms of the setting only *)
+Theorem symbolic_listing_sound' ns sl env : env_nonneg env -> env_parity env -> slisting ns = Some sl ->
+  listing env ns = map (seval env) sl.
+Proof. intros N P. apply symbolic_listing_sound, env_ok_of; assumption. Qed.
+
+Theorem symbolic_duration_sound' ns d env : env_nonneg env -> env_parity env -> sduration ns = Some d ->
+  comp_duration env ns = eval_mp env d.
+Proof. intros N P. apply symbolic_duration_sound, env_ok_of; assumption. Qed.
+
+Theorem mp_le_sound' a b : mp_le a b = true -> a <> [] -> b <> [] -> forall env, env_nonneg env -> env_parity env ->
+  eval_mp env a <= eval_mp env b.
+Proof.
+  intros H A B env N P. apply (mp_le_sound env a b _ _ (env_ok_of env N P) H); apply eval_mp_Mx; assumption.
+Qed.
+
+(* the order on forms really needs the parity hypothesis: with R - M odd the model's wait is rounded down *)
+Theorem wait_fact_needs_parity : exists env, env_nonneg env /\ ~ genv env GReadout <= 2 * wait_of env + genv env GMicrowave.
+Proof. exists (mk_env 3 0 0 0 []). split; [unfold env_nonneg; simpl; lia | vm_compute; intros H; apply H; reflexivity]. Qed.
+
+(* ------------------------------------------------------------------ examples *)
+Definition FB := RelationType_FOLLOWED_BY.
+Definition ex_barrier (lab : Z) := OLeaf (mk_leaf lab C_Barrier [0; 1] QubitChannel_ALL (DFixed 4) None).
+Definition ex_wait (lab : Z) := OLeaf (mk_leaf lab C_Wait [0] QubitChannel_ALL DDecouple None).
+(* barrier; measurement of q1 in parallel with wait - X180 - wait on q0; closing barrier below the LAST WAIT *)
+Definition ex_round (closing_parent : nat) : list node :=
+  [ Node None LNone (ex_barrier 0);
+    Node (Some 0%nat) (LRel FB 0) (OLeaf (mk_leaf 1 C_DispersiveMeasure [1] QubitChannel_ALL (DGlobal GReadout) (Some (1, 0))));
+    Node (Some 0%nat) (LRel FB 0) (ex_wait 2);
+    Node (Some 2%nat) (LRel FB 2) (OLeaf (mk_leaf 3 C_Rx180 [0] QubitChannel_ALL (DGlobal GMicrowave) None));
+    Node (Some 3%nat) (LRel FB 3) (ex_wait 4);
+    Node (Some closing_parent) (LRel FB closing_parent) (ex_barrier 5) ].
+Definition ex_good := ex_round 4.     (* as the library does it *)
+Definition ex_bad := ex_round 1.      (* closing barrier below the measurement: relies on readout >= microwave *)
+
+(* the hypotheses are satisfiable, and the certificate holds for a non-trivial graph: measurement R against M + 2W *)
+Example ex_env_admissible : env_nonneg (mk_env 16 6 8 4 []) /\ env_parity (mk_env 16 6 8 4 []).
+Proof. split; [unfold env_nonneg; simpl; lia | reflexivity]. Qed.
+Example ex_good_certified : cert_no_overlap ex_good = true.
+Proof. vm_compute. reflexivity. Qed.
+Example ex_good_closing_barrier :
+  option_map (fun sl => map (fun e => (se_start e, se_end e)) (skipn 3 sl)) (slisting ex_good)
+  = Some [ ([{| cR := 0; cM := 0; cF := 0; cS := 0; cW := 1; c0 := 4 |}], [{| cR := 0; cM := 1; cF := 0; cS := 0; cW := 1; c0 := 4 |}]);
+           ([{| cR := 0; cM := 1; cF := 0; cS := 0; cW := 1; c0 := 4 |}], [{| cR := 0; cM := 1; cF := 0; cS := 0; cW := 2; c0 := 4 |}]);
+           ([{| cR := 0; cM := 1; cF := 0; cS := 0; cW := 2; c0 := 4 |}], [{| cR := 0; cM := 1; cF := 0; cS := 0; cW := 2; c0 := 8 |}]) ].
+Proof. vm_compute. reflexivity. Qed.
+(* inside a block repeated three times and unrolled (copies are chained by multi-links: maxima of ends) *)
+Example ex_good_unrolled_certified :
+  cert_no_overlap (apply_modifiers (mk_env 0 0 0 0 []) 1 [Node None LNone (OComp 3 ex_good)]) = true.
+Proof. vm_compute. reflexivity. Qed.
+(* the certificate rejects the variant that is overlap-free only while readout >= microwave, and that variant does overlap
+   under an admissible setting (R = 1, M = 3 time units) *)
+Example ex_bad_rejected : cert_no_overlap ex_bad = false.
+Proof. vm_compute. reflexivity. Qed.
+Example ex_bad_overlaps :
+  env_nonneg (mk_env 8 24 8 8 []) /\ env_parity (mk_env 8 24 8 8 [])
+  /\ no_overlap (o_ops (model_obs (mk_env 8 24 8 8 []) ex_bad)) = false
+  /\ no_overlap (o_ops (model_obs (mk_env 24 8 8 8 []) ex_bad)) = true.
+Proof. repeat split; try (unfold env_nonneg; simpl; lia); vm_compute; reflexivity. Qed.
